@@ -195,6 +195,7 @@ type c15RateCase struct {
 	Probes  int    `json:"probes"`
 	Chunked bool   `json:"more_than_200_port_ranges"`
 	VPN     bool   `json:"vpn"`
+	StopMs  int    `json:"sigint_after_ms"` // slow rates: the scan is interrupted; whatever was written by then is judged
 	Seed    int64  `json:"rand_seed"`
 }
 
@@ -271,7 +272,16 @@ func c15RateCheck(c c15RateCase) *kit.Verdict {
 		args = append(args, "-p", fmt.Sprintf("2000-%d", 2000+c.Probes-1))
 	}
 	args = append(args, target)
-	res := runCmd(cmdRun{Args: args, Seed: c.Seed, Timeout: 120 * time.Second})
+	var world *vwire.World
+	if c.StopMs > 0 {
+		v.Label("sub-hertz-rate")
+		var once sync.Once
+		world = vwire.NewWorld(vwire.Scenario{OnWrite: func(w *vwire.World, s *vwire.Socket, wr *vwire.Write) error {
+			once.Do(func() { w.After(time.Duration(c.StopMs)*time.Millisecond, sendSIGINT) })
+			return nil
+		}})
+	}
+	res := runCmd(cmdRun{Args: args, Seed: c.Seed, World: world, Timeout: 120 * time.Second})
 	line := "sx " + strings.Join(args, " ")
 	if res.Hung || res.Err != nil {
 		return v.Failf("%s: hung=%v err=%v\n%s", line, res.Hung, res.Err, clipN(res.Stderr, 300))
@@ -289,8 +299,13 @@ func c15RateCheck(c c15RateCase) *kit.Verdict {
 			return v.Failf("%s\n%s (socket %d of %d, %d frames)", line, bad, s.Index+1, len(res.Sockets), len(ts))
 		}
 	}
-	if total < c.Probes {
-		return v.Failf("%s: %d frames written, expected at least %d", line, total, c.Probes)
+	if total < c.Probes && c.StopMs == 0 {
+		return v.Failf("%s: c15Burst+2 frames written, expected at least %d", line, total, c.Probes)
+	}
+	if c.StopMs > 0 {
+		// the bound is positive for any c15Burst+2 frames: the check above has judged them
+		v.NonTrivial = total >= 1
+		return v
 	}
 	if len(res.Sockets) > 1 {
 		v.Label("chunked")
@@ -315,7 +330,7 @@ func c15GenRate(t *rapid.T, minPer, maxPer time.Duration) (count int, window str
 func TestC15Rate(t *testing.T) {
 	kit.Run(t, kit.Spec[c15RateCase]{
 		Prop: "C15",
-		Rule: "full packet-scan commands (arp, icmp, udp, tcp variants; Ethernet and raw-IP; <=200 and >200 port ranges, i.e. one limiter per chunk) with --rate N or N/W, W in {s,1s,2s,1.5s,1m,0.5s,100ms,20ms,10ms,3ms,500us}, N drawn so that W/N is 0.15..25 ms, 17..600 probes (about 1 s of sending). Observed: monotonic time of every WritePacketData on the virtual wire. Oracle (lower bound only): for all i<j on one socket t_j - t_i >= (j-i-12)*W/N - 200us. non-trivial: some pair has a positive bound; distinct by case",
+		Rule: "full packet-scan commands (arp, icmp, udp, tcp variants; Ethernet and raw-IP; <=200 and >200 port ranges, i.e. one limiter per chunk) with --rate N or N/W, W in {s,1s,2s,1.5s,1m,0.5s,100ms,20ms,10ms,3ms,500us}, N drawn so that W/N is 0.15..25 ms, 17..600 probes (about 1 s of sending); also rates below one probe per second (1/2s, 3/5s, 20/m ...) with the scan interrupted after 1.2 s. Observed: monotonic time of every WritePacketData on the virtual wire. Oracle (lower bound only): for all i<j on one socket t_j - t_i >= (j-i-12)*W/N - 200us. non-trivial: some pair has a positive bound; distinct by case",
 		Gen: func(t *rapid.T) c15RateCase {
 			c := c15RateCase{Cmd: rapid.SampledFrom(c01PacketCmds).Draw(t, "cmd"), Seed: rapid.Int64().Draw(t, "seed")}
 			var per time.Duration
@@ -335,6 +350,12 @@ func TestC15Rate(t *testing.T) {
 			if !cmdPortless(base) && n > 210 {
 				c.Chunked = rapid.IntRange(0, 2).Draw(t, "chunked") == 0
 			}
+			if rapid.IntRange(0, 5).Draw(t, "sub-hertz") == 0 {
+				// fewer than one probe per second: 1/2s, 3/5s, 20/m ... ; the scan is interrupted after 1.2 s
+				r := rapid.SampledFrom([][2]string{{"1", "2s"}, {"3", "5s"}, {"20", "m"}, {"1", "1500ms"}, {"2", "3s"}}).Draw(t, "slowrate")
+				fmt.Sscan(r[0], &c.Count)
+				c.Window, c.Probes, c.Chunked, c.StopMs = r[1], 32, false, 1200
+			}
 			return c
 		},
 		Check: c15RateCheck,
@@ -349,6 +370,7 @@ type c15AppCase struct {
 	Window  string `json:"rate_window"`
 	Probes  int    `json:"probes"`
 	Workers int    `json:"workers"`
+	StopMs  int    `json:"cancel_after_ms"`
 	Seed    int64  `json:"rand_seed"`
 }
 
@@ -394,6 +416,10 @@ func c15AppCheck(c c15AppCase) *kit.Verdict {
 		for range errc {
 		}
 	}()
+	if c.StopMs > 0 {
+		v.Label("sub-hertz-rate")
+		time.AfterFunc(time.Duration(c.StopMs)*time.Millisecond, cancel)
+	}
 	select {
 	case <-done:
 	case <-time.After(120 * time.Second):
@@ -402,7 +428,7 @@ func c15AppCheck(c c15AppCase) *kit.Verdict {
 	rec.mu.Lock()
 	ts := append([]time.Time(nil), rec.times...)
 	rec.mu.Unlock()
-	if len(ts) != c.Probes {
+	if len(ts) != c.Probes && c.StopMs == 0 {
 		return v.Failf("%d probes started, expected %d", len(ts), c.Probes)
 	}
 	sort.Slice(ts, func(i, j int) bool { return ts[i].Before(ts[j]) })
@@ -435,6 +461,11 @@ func TestC15AppRate(t *testing.T) {
 				n = 5
 			}
 			c.Probes = n
+			if rapid.IntRange(0, 5).Draw(t, "sub-hertz") == 0 {
+				r := rapid.SampledFrom([][2]string{{"1", "2s"}, {"3", "5s"}, {"20", "m"}, {"1", "1500ms"}}).Draw(t, "slowrate")
+				fmt.Sscan(r[0], &c.Count)
+				c.Window, c.Probes, c.StopMs = r[1], c15Burst+c.Workers+20, 1200
+			}
 			return c
 		},
 		Check: c15AppCheck,
